@@ -53,8 +53,13 @@ def run(rep, tier):
     m = ir.Module.load(lr.json)
     rep.configs.append(b.cfg.name)
     rep.units.update(lr.units)
-    rule_placement_c(rep, m)
-    rule_placement_cpp(rep, m)
+    # placement rules look at each public function with its file-local helpers inlined (what a function does must not
+    # depend on how it is split into helpers)
+    lri = repo.lower(b, group="lib", level="O0", scev=True, inline_internal=True,
+                     tolerate=tuple(u.rel for u in b.group("lib", ("c++",))))
+    mi = ir.Module.load(lri.json)
+    rule_placement_c(rep, mi)
+    rule_placement_cpp(rep, mi)
     rule_increment(rep, m)
     rule_helpers(rep, m)
     rule_sessions(rep, tier)
@@ -145,6 +150,16 @@ def rule_placement_c(rep, m):
                     if nm2 and "nonce" in nm2 and f.dominates(c, inc):
                         consumed = True
         if not consumed:
+            # the state object itself handed to a helper of the same unit before the increment: the helper may be what
+            # feeds the nonce into the cipher state; whether it does is decided behaviourally (C14.D4, C01.M sessions)
+            via_helper = any(c is not inc and f.dominates(c, inc) and (c.callee or "") in m.funcs and
+                             not m.funcs[c.callee].decl and m.funcs[c.callee].internal and
+                             any(isinstance(a, str) and R.resolve(a).single() == ("param", f.params[0]) for a in c.ops)
+                             for c in f.calls())
+            if via_helper:
+                rep.unproved_item(rid, "%s: the nonce is not passed to a callee directly before the increment; a helper "
+                                  "receives the state object (decided by C14.D4 / C01.M sessions)" % name)
+                continue
             rep.violation(rid, name + ":order", inc.where(), "%s increments the nonce before (or without) feeding it "
                           "into the cipher state, so the packet is not encrypted under the stored nonce" % name)
         else:
